@@ -227,6 +227,11 @@ def corruptions(ref, root='/work/plt', tier='quick', want=None):
                 deltas.add(dlt)
             if tier == 'quick':
                 deltas = set(d for d in deltas if d in (-24, -8, -1, 1, 2, 5, 17, hlen - 20, hlen - 5, hlen - 1, hlen, hlen + 1, hlen + 8, own - 8, own, own + hlen) )
+            # the start of every other FAB of the same file (and a few bytes into its header)
+            for b2, (f2, o2) in offs.items():
+                if f2 == fname and b2 != b:
+                    deltas.add(o2 - off)
+                    deltas.add(o2 - off + 5)
             for dlt in sorted(deltas):
                 if dlt == 0 or off + dlt < 0:
                     continue
